@@ -687,6 +687,34 @@ def r13(ctx, facts):
         raise AnchorLost("no ordered UDT type_check in the family")
 
 
+def r14(ctx, facts):
+    r = ctx.rule("R14", "ordered UDT deserialize consumes a UDT field from the iterator only when no field is waiting in the look-ahead slot (a parked field and a freshly fetched one are never both taken for one Rust field)", floor=3)
+    from ..util import dj_of
+    n = 0
+    for name, (kind, flavor, fields, derives) in sorted(FAMILY.items()):
+        if kind != "udt" or "d" not in derives or not flavor.startswith("order"):
+            continue
+        b = find_body(facts, r"^<derive_family::%s as scylla_cql_core::deserialize::value::DeserializeValue<'lifetime, 'lifetime_>>::deserialize$" % name)
+        dj = dj_of(b, facts)
+        takes = [c for bb, c in b.calls() if bb in b.live_blocks and (c.name or "").endswith("Option::<T>::take")]
+        direct = [c for bb, c in b.calls() if bb in b.live_blocks and (c.decl or "").endswith("Iterator::next") and "UdtIterator" in b.local_ty(c.args[0][1][0]) ] if True else []
+        n += 1
+        if not takes:
+            r.instance("lazy-fetch:%s" % name, True, "no look-ahead slot in this deserializer", b.span, nontrivial=False)
+            continue
+        bad = None
+        for c in direct:
+            # a fetch in the body itself (not inside the `or_else` fallback closure): allowed only where a `take()` of the slot is known to have come out None
+            sts = dj.states_at(c.bb)
+            if not (sts and all(any(in_set(st.get(("disc", (t.dest[0], ()))), {0}) for t in takes) for st in sts)):
+                bad = c
+        r.instance("lazy-fetch:%s" % name, bad is None,
+                   "the deserializer fetches the next UDT field from the iterator although a field may be waiting in the look-ahead slot (e.g. `saved.take().or(fetched)` with the fetch done eagerly): "
+                   "the fetched field is then thrown away, and the Rust field it belonged to gets its default or the deserializer panics with `Too few CQL UDT fields`", bad.span if bad else b.span)
+    if n == 0:
+        raise AnchorLost("no ordered UDT deserializer in the family")
+
+
 def switch_edges_(b, sw):
     t = b.term(sw)
     return {int(v): tg for v, tg in t[2]}, t[3]
@@ -699,7 +727,7 @@ def check(ctx):
         sers = r1(ctx, facts)
     except AnchorLost as ex:
         ctx.rule("R1x", "anchors").fail("anchor-lost", str(ex))
-    for fn in ((lambda c, f: r2(c, f, sers)), (lambda c, f: r12(c, f, sers)), r3, r4, r5, r6, r7, r8, r9, r10, r11, r13):
+    for fn in ((lambda c, f: r2(c, f, sers)), (lambda c, f: r12(c, f, sers)), r3, r4, r5, r6, r7, r8, r9, r10, r11, r13, r14):
         try:
             fn(ctx, facts)
         except AnchorLost as ex:
